@@ -23,6 +23,7 @@ func init() {
 }
 
 func runC16(c *rules.Ctx) {
+	sumtreeMigrationRules(c)
 	const T = "osmoutils/sumtree.Tree."
 	c.Let("SPLIT_S", "sumtree.ptr.accumulationSplit(sumtree.Tree.root(t),start)")
 	c.Let("SPLIT_E", "sumtree.ptr.accumulationSplit(sumtree.Tree.root(t),end)")
